@@ -162,8 +162,8 @@ int main(int argc, char **argv) {
     while (fgets(line, sizeof line, f) && NTXT < 8192) { size_t l = strlen(line); while (l && (line[l - 1] == '\n' || line[l - 1] == '\r')) line[--l] = 0; TLDTXT[NTXT++] = strdup(line); }
     fclose(f);
     if (mc_replay) return do_replay();
-    if (RAW.n != RT_PUNY.n) mc_violation("files", "raw-vs-punycode-rowcount", "", "", "", 0, "raw.csv has %d rows, punycode.csv %d", RAW.n, RT_PUNY.n);
-    if (NTXT != RT_PUNY.n) mc_violation("files", "tld-domains-linecount", "", "", "", 0, "tld-domains.txt has %d lines, punycode.csv %d rows", NTXT, RT_PUNY.n);
+    if (RAW.n != RT_PUNY.n) mc_violation("noreplay-files", "raw-vs-punycode-rowcount", "", "", "", 0, "raw.csv has %d rows, punycode.csv %d", RAW.n, RT_PUNY.n);
+    if (NTXT != RT_PUNY.n) mc_violation("noreplay-files", "tld-domains-linecount", "", "", "", 0, "tld-domains.txt has %d lines, punycode.csv %d rows", NTXT, RT_PUNY.n);
     mc_extra_add("\"csv_rows\":%d,\"raw_rows\":%d,\"tld_domains_lines\":%d", RT_PUNY.n, RAW.n, NTXT);
     mc_parallel("rows+members+edit-neighbours: every CSV row", RT_PUNY.n, rows_shard, NULL);
     mc_parallel("nonrows: every label of 1-3 chars over [a-z0-9] (+x-y)", 36, short_shard, NULL);
